@@ -124,6 +124,8 @@ type YieldStore struct {
 	Failed       int
 	// FailDisarmed suspends injection (a scenario that only faults one kind of request).
 	FailDisarmed bool
+	// Streak: after the first injected error every store call fails until the budget is used up (an outage)
+	Streak bool
 	// Trace, when set, receives every completed operation.
 	Trace func(OpRecord)
 	// After is called after every completed operation, before the post-yield.
@@ -156,12 +158,15 @@ func (y *YieldStore) inject(op string) bool {
 	y.mu.Lock()
 	rate := y.FailPermille[op]
 	room := y.Failed < y.FailBudget && !y.FailDisarmed
+	streak := y.Streak && y.Failed > 0 && room
 	y.mu.Unlock()
-	if rate <= 0 || !room {
-		return false
-	}
-	if y.Sim.TaskChoose("store", "storefail."+op, 1000) < 1000-rate {
-		return false
+	if !streak {
+		if rate <= 0 || !room {
+			return false
+		}
+		if y.Sim.TaskChoose("store", "storefail."+op, 1000) < 1000-rate {
+			return false
+		}
 	}
 	y.mu.Lock()
 	y.Failed++
